@@ -46,6 +46,18 @@ CLAIMED = {
          "Lean theorems: TryLock against a transcription of sync.Mutex's word protocol (over-approximated environment): at most one holder in every reachable state, a TryLock CAS succeeds only on a word with none of locked/woken/starving and makes the caller the holder, Unlock releases it; AddFlag/RemoveFlag take effect exactly once at their successful CAS (value = fold in CAS order; adds = OR of all flags); AddIf64's CAS sees a value satisfying the predicate, so predicate-closed invariants (never above the limit) hold in every reachable state; Count = waiters + holder for every 32-bit word. Tie to /repo: step-level correspondence under the cooperative scheduler (all interleavings of small programs, all 64 flag bits, all (init,delta,limit) in [-3,3]^3, TryLock vs the real sync.Mutex incl. constructed woken/starving words), Count on real mutexes with 0..6 parked waiters",
          "trusted: the transcription of go1.23 sync.Mutex (hash of the toolchain's mutex.go recorded in the evidence), sequentially consistent atomics, hooks/scheduler, Lean kernel, axioms in evidence, driver compilation",
          "machine-checked proof (Lean 4) + step-level correspondence under a controlled scheduler", "DESIGN.md §2 C17"),
+ "C03": ("lean-proof+controlled-scheduler+virtual-time",
+         "Lean theorems over an LTS of the timing wheel (one pc per atomic access of the ticker and of any number of concurrent requesters; ghost tick counters and due ticks): every channel is closed exactly once, by exactly its due tick, and never re-opened; for every execution and every completed request there is an L between the ticks completed at invocation and the ticks started at return with due = L+k+1 (also across whole revolutions during the request and for n = 1); panic iff d < 0 or d >= s*n; Reset is a fresh request; arithmetic on the tick clock: D-s < t <= D (tie case stated); ghost erasure; decide-proved counterexamples for the old store order and for dropping only the re-check. Tie to /repo: (race) the real ticker and requesters are driven one atomic access at a time under the cooperative scheduler with exhaustive/state-covering schedules and the closing tick of every returned channel is compared with the model; (timing) the real wheel with its own ticker runs under the Go runtime's virtual clock and every fire instant is compared with the model and judged by an independent oracle",
+         "trusted: time.Ticker delivers tick j at j*s (the property is stated on the wheel's own tick clock); AfterFunc waiter = Go select semantics; hooks/scheduler; faketime at GOMAXPROCS=1; Lean kernel, axioms in evidence, driver compilation",
+         "machine-checked proof (Lean 4) + step-level correspondence under a controlled scheduler + virtual-time trace comparison", "DESIGN.md §2 C03"),
+ "C09": ("lean-proof+virtual-time",
+         "Lean theorems over an LTS of taskx.Queue (bounded FIFO channel, close flag, any number of producers, one consumer, WaitGroup): received ++ channel = the successful sends, per-producer in send order, no duplicates; nothing dropped while open; a full open queue parks the sender; Get2 is disabled until the consumer executed the task and then returns exactly the handler's pair (stable without a second Do); nil handler = completed empty task; once closed the send returns regardless of the queue length. Tie to /repo: scripted multi-producer scenarios with a slow consumer and scripted close under the Go runtime's virtual clock; the compiled model in monitor mode must reproduce receive order, send return instants and Get2 values (select races resolved from the observation = trace inclusion); independent oracle on the observations",
+         "trusted: Go channel FIFO, select (any ready branch) and WaitGroup semantics as modelled; faketime at GOMAXPROCS=1; Lean kernel, axioms in evidence, driver compilation",
+         "machine-checked proof (Lean 4) + trace inclusion of virtual-time runs", "DESIGN.md §2 C09"),
+ "C10": ("lean-proof+virtual-time",
+         "Lean theorems over a model of the delayed queue (request channel, std.PriorityQueue over a transcription of container/heap whose Push/Pop are proved to keep the heap invariant with a minimal root, ticks at the period read from the source literal): a task is forwarded only at a tick instant >= its deadline (no proviso), at the first such tick, hence less than one tick late when the target queues have room (exact-coincidence case stated separately), exactly once, and in non-decreasing deadline order (for non-negative delays and unblocked targets). Tie to /repo: multisets of (send instant, delay, queue) incl. ties, d=0, bursts beyond 32/128 outstanding, all tick phases, run on the real global delayed queue under the virtual clock; arrival instants and per-queue order compared exactly with the model; independent oracle",
+         "trusted: Go channel/select/ticker semantics as modelled (a ticker channel holds one tick); with a FULL target queue (outside the property's proviso) only never-early/once/model correspondence are checked - head-of-line blocking there reorders deadlines on the real code; faketime at GOMAXPROCS=1; Lean kernel, axioms in evidence, driver compilation",
+         "machine-checked proof (Lean 4) + trace comparison of virtual-time runs", "DESIGN.md §2 C10"),
 }
 NOT_CLAIMED = {}
 
